@@ -13,6 +13,8 @@
 -/
 import BtcVerif.Proofs.HB
 import BtcVerif.Gen.AccessTable
+import BtcVerif.Model.RpcIds
+import BtcVerif.Gen.Facts
 
 namespace BtcVerif.Props.C19
 open BtcVerif.Model.HB
@@ -97,5 +99,57 @@ example : Conforms sampleTrace sampleRows (fun _ => 9) := by
     | exact ⟨⟨5, true, false, true, false⟩, by decide, rfl, rfl, rfl, by decide⟩
     | exact ⟨⟨5, false, false, false, true⟩, by decide, rfl, rfl, rfl, fun _ => by decide⟩
     | exact ⟨⟨5, true, false, false, true⟩, by decide, rfl, rfl, rfl, fun _ => by decide⟩
+
+/-! ### request ids: the counter as a state machine (`Model/RpcIds.lean`) -/
+
+open BtcVerif.Model.RpcIds in
+theorem rpc_log_shape (tags : List Nat) : ∀ (s : St),
+    (tags.foldl take s).counter = s.counter + tags.length ∧
+    (tags.foldl take s).log = s.log ++ (tags.zip (List.range' s.counter tags.length)) := by
+  induction tags with
+  | nil => intro s; simp
+  | cons t ts ih =>
+    intro s
+    have h := ih (take s t)
+    simp only [List.foldl_cons, List.length_cons, List.range'_succ, List.zip_cons_cons]
+    refine ⟨by rw [h.1]; simp [take]; omega, ?_⟩
+    rw [h.2]
+    simp [take, List.append_assoc]
+
+open BtcVerif.Model.RpcIds in
+/-- **every id is issued once**: in any execution (any number of goroutines, any interleaving of their
+critical sections, any number of retries) the ids handed out are pairwise distinct — so two different
+requests never carry the same id, and not even a retry repeats one -/
+theorem rpc_ids_issued_once (start : Nat) (tags : List Nat) :
+    ((run start tags).log.map Prod.snd).Nodup := by
+  have h := (rpc_log_shape tags { counter := start, log := [] }).2
+  simp only [run, h, List.nil_append]
+  have hl : (List.range' start tags.length).length = tags.length := List.length_range'
+  rw [List.map_snd_zip (by omega)]
+  exact List.nodup_range'
+
+open BtcVerif.Model.RpcIds in
+/-- two entries of the log with the same id are the same entry: different logical requests have different ids -/
+theorem rpc_different_requests_different_ids (start : Nat) (tags : List Nat) (i j : Nat)
+    (hi : i < (run start tags).log.length) (hj : j < (run start tags).log.length)
+    (h : ((run start tags).log[i]).2 = ((run start tags).log[j]).2) : i = j := by
+  have hn := rpc_ids_issued_once start tags
+  have hi' : i < ((run start tags).log.map Prod.snd).length := by simpa using hi
+  have hj' : j < ((run start tags).log.map Prod.snd).length := by simpa using hj
+  exact (List.getElem_inj (h₀ := hi') (h₁ := hj') hn).mp (by simpa using h)
+
+open BtcVerif.Model.RpcIds in
+/-- the theorem discriminates: handing the id back after a refusal (seeded change C19-R6A) gives the retry of
+request 1 the id that request 2 holds -/
+theorem rpc_handing_ids_back_clashes :
+    (runBack 0 [.take 1, .take 2, .refused, .take 1]).log = [(1, 0), (2, 1), (1, 1)] := by decide
+
+/-- the tie: the only assignment `RequestSetResult` makes through a field is `conn.requestID += 1`, and it takes
+the mutex before anything else (the access table has the read and the write under the mutex: `lib_race_free`) -/
+theorem rpc_counter_only_incremented :
+    BtcVerif.Gen.Facts.rpc_Connection_RequestSetResult_assignStmts = ["conn.requestID += 1"] ∧
+    BtcVerif.Gen.Facts.rpc_Connection_RequestSetResult_calls.take 2 =
+      ["conn.requestIDMutex.Lock", "conn.requestIDMutex.Unlock"] := by decide
+
 
 end BtcVerif.Props.C19
